@@ -1,26 +1,6 @@
-import PieModel.Props.C01
 import PieModel.Props.C01Full
 import PieModel.Props.C01FullCex
-#print axioms PieModel.C01_eval_deterministic
-#print axioms PieModel.C01_faithful_empty
-#print axioms PieModel.C01_setContent_store
-#print axioms PieModel.C01_invariant_newSession
-#print axioms PieModel.C01_faithful_preserved
-#print axioms PieModel.C01_faithful_session
-#print axioms PieModel.C01_check_sound
-#print axioms PieModel.C01_exec_sound
-#print axioms PieModel.C01_session_sound
-#print axioms PieModel.C01_requireAll_sound
-#print axioms PieModel.C01_sources
-#print axioms PieModel.C01_history_faithful
-#print axioms PieModel.C01_clean_build_eval
-#print axioms PieModel.C01_equals_clean_build
-#print axioms PieModel.C01_no_spurious_abort_kinds
-#print axioms PieModel.C01_no_spurious_abort_kinds_all
-#print axioms PieModel.C01_history_agrees
-#print axioms PieModel.tdSound
-#print axioms PieModel.replay_eval
-#print axioms PieModel.tdNHO
+
 #print axioms PieModel.C01_den_deterministic
 #print axioms PieModel.C01_overlay_unique
 #print axioms PieModel.C01_faithfulO_faithfulW
@@ -33,6 +13,9 @@ import PieModel.Props.C01FullCex
 #print axioms PieModel.C01_full_equals_clean_build
 #print axioms PieModel.C01_full_history
 #print axioms PieModel.C01_full_history_equals_clean_build
+#print axioms PieModel.C02_minimal
+#print axioms PieModel.C02_consistent_iff_demanded
+#print axioms PieModel.C02_minimal_history
 #print axioms PieModel.tdSoundW
 #print axioms PieModel.replayO_walk
 #print axioms PieModel.EvalW.det
@@ -41,5 +24,6 @@ import PieModel.Props.C01FullCex
 #print axioms PieModel.fullPie_session
 #print axioms PieModel.fullPie_clean
 #print axioms PieModel.C01_full_faithfulW_insufficient
+#print axioms PieModel.C02_minimal_needs_writeExact
 #print axioms PieModel.C01_full_invariant_newSession
 #print axioms PieModel.C01_full_invariant_resources
